@@ -2,8 +2,9 @@ import CaresLemmas.ChanPolicyLookup
 /-!
 # C09 — the completion of a probe query is invisible to every other request (frame form of non-interference)
 
-`end_query` of a query owned by `probe` (`server_probe_cb`): the callback does nothing, so the whole run of
-`exec fuel (.endQuery …)` is `metricsRecord`, `detach`, `freeQuery` — computed here in closed form.
+`end_query` of a query owned by `probe pid` (`server_probe_cb` with the probed server as its argument): the callback
+only resets `probe_pending` of server `pid`, so the whole run of `exec fuel (.endQuery …)` is `metricsRecord`,
+`detach`, that reset, `freeQuery` — computed here in closed form.
 -/
 namespace Cares.Chan
 
@@ -97,15 +98,23 @@ theorem metricsRecord_qs (s : St) (q : Query) (srv : Option Nat) (st : Status) (
   obtain ⟨a, e⟩ := metricsRecord_shape s q srv st rec
   rw [e]
 
-/-- the state `end_query` leaves when the owner's callback does nothing -/
-def endProbeSt (srv : Option Nat) (key : Nat) (st : Status) (rec : Option Reply) (q : Query) (s : St) : St :=
+/-- `server_probe_cb(arg = server pid)`: the probe episode of that server is over -/
+def releaseProbe (pid : Nat) (s : St) : St := s.modServer pid fun v => { v with probePending := false }
+
+theorem SameOutcome.releaseProbe (pid : Nat) (s : St) : SameOutcome s (releaseProbe pid s) := by
+  constructor <;> rfl
+
+/-- the state `end_query` leaves when the owner's callback is `server_probe_cb` for server `pid` -/
+def endProbeSt (pid : Nat) (srv : Option Nat) (key : Nat) (st : Status) (rec : Option Reply) (q : Query) (s : St) : St :=
   let s1 := match srv with
     | some id => s.modServer id fun v => { v with probePending := false }
     | none => s
-  (((s1.metricsRecord q srv st rec).detach key).freeQuery key)
+  ((releaseProbe pid ((s1.metricsRecord q srv st rec).detach key)).freeQuery key)
 
-theorem endProbeSt_frame (srv : Option Nat) (key : Nat) (st : Status) (rec : Option Reply) (q : Query) (s : St) :
-    (endProbeSt srv key st rec q s).qs = s.qs.filter (·.key != key) ∧ SameOutcome s (endProbeSt srv key st rec q s) := by
+theorem endProbeSt_frame (pid : Nat) (srv : Option Nat) (key : Nat) (st : Status) (rec : Option Reply) (q : Query)
+    (s : St) :
+    (endProbeSt pid srv key st rec q s).qs = s.qs.filter (·.key != key) ∧
+      SameOutcome s (endProbeSt pid srv key st rec q s) := by
   unfold endProbeSt
   extract_lets s1
   have h1 : s1.qs = s.qs ∧ SameOutcome s s1 := by
@@ -115,23 +124,27 @@ theorem endProbeSt_frame (srv : Option Nat) (key : Nat) (st : Status) (rec : Opt
   refine ⟨?_, ?_⟩
   · rw [freeQuery_qs]
     -- `detach` rewrites only entries with this key, which the final filter drops
-    have hd : ((s1.metricsRecord q srv st rec).detach key).qs.filter (·.key != key) = s.qs.filter (·.key != key) := by
+    have hd : (releaseProbe pid ((s1.metricsRecord q srv st rec).detach key)).qs.filter (·.key != key) =
+        s.qs.filter (·.key != key) := by
+      show ((s1.metricsRecord q srv st rec).detach key).qs.filter (·.key != key) = _
       rw [detach_qs]
       rcases removeFromConn_qs (s1.metricsRecord q srv st rec) key with h | ⟨_, h⟩
       · rw [h, filter_map_unlink, metricsRecord_qs, h1.1]
       · rw [h, metricsRecord_qs, h1.1]
     exact hd
-  · exact ((h1.2.trans (SameOutcome.metricsRecord _ _ _ _ _)).trans (SameOutcome.detach _ _)).trans
-      (SameOutcome.freeQuery _ _)
+  · exact (((h1.2.trans (SameOutcome.metricsRecord _ _ _ _ _)).trans (SameOutcome.detach _ _)).trans
+      (SameOutcome.releaseProbe _ _)).trans (SameOutcome.freeQuery _ _)
 
-/-- `server_probe_cb`: the callback of a probe does nothing at all (any fuel ≥ 1) -/
-theorem exec_callback_probe (fuel : Nat) (react : List Nat) (st : Status) (timeouts : Nat) (rec : Option Reply) (s : St) :
-    exec (fuel + 1) (.callback .probe react st timeouts rec) s = (s, .ok) := rfl
+/-- `server_probe_cb`: the callback of a probe resets `probe_pending` of the probed server and does nothing else
+    (any fuel ≥ 1, any status) -/
+theorem exec_callback_probe (fuel : Nat) (pid : Nat) (react : List Nat) (st : Status) (timeouts : Nat)
+    (rec : Option Reply) (s : St) :
+    exec (fuel + 1) (.callback (.probe pid) react st timeouts rec) s = (releaseProbe pid s, .ok) := rfl
 
 /-- closed form of a probe's `end_query` (fuel ≥ 2) -/
 theorem exec_endQuery_probe (fuel : Nat) (srv : Option Nat) (key : Nat) (st : Status) (rec : Option Reply) (s : St)
-    (q : Query) (hq : s.query? key = some q) (ho : q.owner = .probe) :
-    exec (fuel + 2) (.endQuery srv key st rec) s = (endProbeSt srv key st rec q s, .ok) := by
+    (q : Query) (pid : Nat) (hq : s.query? key = some q) (ho : q.owner = .probe pid) :
+    exec (fuel + 2) (.endQuery srv key st rec) s = (endProbeSt pid srv key st rec q s, .ok) := by
   show bodyEndQuery (exec (fuel + 1)) srv key st rec s = _
   unfold bodyEndQuery
   rw [hq]
@@ -157,10 +170,10 @@ theorem exec_endQuery_oof (fuel : Nat) (hf : fuel < 2) (srv : Option Nat) (key :
     rw [oof_freeQuery]
     rfl
 
-/-- `end_query` without a server pointer (what `ares_requeue_query` passes when it gives up) leaves every server as
-    it is — in particular `probe_pending` is not cleared by `end_query` itself -/
-theorem endProbeSt_none_servers (key : Nat) (st : Status) (rec : Option Reply) (q : Query) (s : St) :
-    (endProbeSt none key st rec q s).servers = s.servers := by
+/-- `end_query` without a server pointer (what `ares_requeue_query` passes when it gives up) changes no server itself;
+    the probe's callback resets `probe_pending` of the probed server `pid` and nothing else -/
+theorem endProbeSt_none_servers (pid : Nat) (key : Nat) (st : Status) (rec : Option Reply) (q : Query) (s : St) :
+    (endProbeSt pid none key st rec q s).servers = (releaseProbe pid s).servers := by
   unfold endProbeSt
   dsimp only
   have h1 : (s.metricsRecord q none st rec) = s := by
@@ -170,8 +183,9 @@ theorem endProbeSt_none_servers (key : Nat) (st : Status) (rec : Option Reply) (
     · rfl
   rw [h1]
   obtain ⟨a, b, c, d, e1, e2, e3, e⟩ := detach_shape s key
-  obtain ⟨a', b', c', d', e1', e2', e3', e'⟩ := freeQuery_shape (s.detach key) key
+  obtain ⟨a', b', c', d', e1', e2', e3', e'⟩ := freeQuery_shape (releaseProbe pid (s.detach key)) key
   rw [e', e]
+  rfl
 
 /-- a query with `no_retries` (a probe) that reaches `ares_requeue_query` is ended — without a server pointer — from a
     state that differs from the caller's only in the query's links and counters (same servers, same owner) -/
@@ -204,13 +218,14 @@ theorem requeue_noRetries_ends_frame (go : Call → St → St × Ret) (key : Nat
   · obtain ⟨a, b, c, d, e⟩ := removeFromConn_shape s key
     rw [e]; rfl
 
-/-- whole run of `ares_requeue_query` on a probe (`no_retries`, owner `probe`), any fuel, any state: when it completes
-    the servers are exactly as before — the run itself neither sets nor clears `probe_pending` -/
+/-- whole run of `ares_requeue_query` on a probe (`no_retries`, owner `probe pid`), any fuel, any state: when it
+    completes the servers are as before except that `probe_pending` of the probed server `pid` has been reset (by the
+    probe's callback) — the run sets no flag and touches no other server -/
 theorem exec_requeue_probe_frame (fuel : Nat) (key : Nat) (st : Status) (inc : Bool) (rec : Option Reply)
-    (deferred : Bool) (s : St) (q : Query) (hq : s.query? key = some q) (ho : q.owner = .probe)
+    (deferred : Bool) (s : St) (q : Query) (pid : Nat) (hq : s.query? key = some q) (ho : q.owner = .probe pid)
     (hnr : q.noRetries = true)
     (hf : (exec fuel (.requeue key st inc rec deferred) s).1.outOfFuel = false) :
-    (exec fuel (.requeue key st inc rec deferred) s).1.servers = s.servers := by
+    (exec fuel (.requeue key st inc rec deferred) s).1.servers = (releaseProbe pid s).servers := by
   cases fuel with
   | zero => have : true = false := hf; cases this
   | succ m =>
@@ -225,9 +240,50 @@ theorem exec_requeue_probe_frame (fuel : Nat) (key : Nat) (st : Status) (inc : B
     · have := exec_endQuery_oof m h2 none key es rec s' q' hq'
       rw [this] at hf; cases hf
     · obtain ⟨n, rfl⟩ : ∃ n, m = n + 2 := ⟨m - 2, by omega⟩
-      rw [exec_endQuery_probe n none key es rec s' q' hq' (ho'.trans ho)]
-      show (endProbeSt none key es rec q' s').servers = _
-      rw [endProbeSt_none_servers, hs']
+      rw [exec_endQuery_probe n none key es rec s' q' pid hq' (ho'.trans ho)]
+      show (endProbeSt pid none key es rec q' s').servers = _
+      rw [endProbeSt_none_servers]
+      show s'.servers.map _ = s.servers.map _
+      rw [hs']
+
+/-- after `server_probe_cb` every server with the probed id has `probe_pending = false`; the others are untouched -/
+theorem releaseProbe_spec (pid : Nat) (s : St) :
+    (∀ v ∈ (releaseProbe pid s).servers, v.id = pid → v.probePending = false) ∧
+    (∀ w : Server, w.id ≠ pid → (w ∈ (releaseProbe pid s).servers ↔ w ∈ s.servers)) ∧
+    (∀ v ∈ (releaseProbe pid s).servers, v.probePending = true → ∃ w ∈ s.servers, w.id = v.id ∧ w.probePending = true) ∧
+    (releaseProbe pid s).servers.map (·.id) = s.servers.map (·.id) := by
+  show (∀ v ∈ s.servers.map _, _) ∧ (∀ w : Server, _ → (w ∈ s.servers.map _ ↔ _)) ∧ (∀ v ∈ s.servers.map _, _) ∧
+    (s.servers.map _).map _ = _
+  refine ⟨?_, ?_, ?_, ?_⟩
+  · intro v hv hid
+    obtain ⟨x, hx, rfl⟩ := List.mem_map.1 hv
+    by_cases h : x.id == pid
+    · simp only [h, ↓reduceIte]
+    · simp only [h, Bool.false_eq_true, ↓reduceIte] at hid
+      exact absurd (by simpa using hid) h
+  · intro w hw
+    constructor
+    · intro h
+      obtain ⟨x, hx, rfl⟩ := List.mem_map.1 h
+      by_cases h' : x.id == pid
+      · simp only [h', ↓reduceIte] at hw
+        exact absurd (by simpa using h') hw
+      · simp only [h', Bool.false_eq_true, ↓reduceIte]; exact hx
+    · intro h
+      refine List.mem_map.2 ⟨w, h, ?_⟩
+      have : (w.id == pid) = false := by simpa using hw
+      simp only [this, Bool.false_eq_true, ↓reduceIte]
+  · intro v hv hp
+    obtain ⟨x, hx, rfl⟩ := List.mem_map.1 hv
+    by_cases h : x.id == pid
+    · simp only [h, ↓reduceIte] at hp; cases hp
+    · simp only [h, Bool.false_eq_true, ↓reduceIte] at hp ⊢
+      exact ⟨x, hx, rfl, hp⟩
+  · rw [List.map_map]
+    apply List.map_congr_left
+    intro x _
+    show (if x.id == pid then _ else x).id = x.id
+    split <;> rfl
 
 /-- `server_increment_failures` does not touch the query store -/
 theorem query?_incFailures (s : St) (id : Nat) (tcp : Bool) (k : Nat) :
